@@ -204,3 +204,31 @@ Proof.
   destruct (a2c_collect T vs (map (fun _ => (0, 0)) scripts)) as [[rows vs'] last].
   destruct Hc as (Hr & _ & Hl). rewrite Hpend in Hr. split; assumption.
 Qed.
+
+(** the observation a2c.collect_trajectories returns (and train_a2c feeds into the next rollout) is the one
+    each environment returned last; a continued rollout therefore chains on the previous one *)
+Theorem a2c_returned_observation : forall T scripts,
+  let '(_, vs', last) := a2c_run T scripts in
+  Forall2 (fun v o => o = (e_ep (v_env v), e_t (v_env v))) vs' last.
+Proof.
+  intros T scripts. unfold a2c_run. pose proof (vec_init_ok scripts) as H.
+  destruct (vec_init scripts) as [vs o].
+  assert (H' : Forall2 okva vs o) by (induction H; constructor; [apply okv_okva; assumption | assumption]).
+  pose proof (a2c_rows_chain T vs o H') as Hc.
+  destruct (a2c_collect T vs o) as [[rows vs'] last]. destruct Hc as (_ & Hv & _).
+  induction Hv as [|v x vs1 l1 Hx _ IH]; constructor; [|exact IH]. destruct Hx as (_ & _ & Hx). exact Hx.
+Qed.
+
+Lemma a2c_collect_app : forall T1 T2 vs cur,
+  let '(rows1, vs1, last1) := a2c_collect T1 vs cur in
+  let '(rows2, vs2, last2) := a2c_collect T2 vs1 last1 in
+  a2c_collect (T1 + T2) vs cur = (rows1 ++ rows2, vs2, last2).
+Proof.
+  induction T1 as [|T1 IH]; intros T2 vs cur; cbn [a2c_collect Nat.add].
+  - destruct (a2c_collect T2 vs cur) as [[r v] l]. reflexivity.
+  - destruct (vec_step NextStep vs) as [vs1 outs].
+    specialize (IH T2 vs1 (map vo_obs outs)).
+    destruct (a2c_collect T1 vs1 (map vo_obs outs)) as [[rows1 vsa] lasta].
+    destruct (a2c_collect T2 vsa lasta) as [[rows2 vsb] lastb].
+    rewrite IH. reflexivity.
+Qed.
